@@ -122,8 +122,9 @@ def check_code(co, acc, origin, ver, after_refused=None, inject=False):
         acc.add_ctx(ctx, case)
         return None
     try:
-        st = check_byteflow(co, flow.scfg)
+        st = check_byteflow(co, flow.scfg, flow)
         acc.counters["blocks_checked"] += st["blocks"]
+        acc.counters["instructions_retrieved_through_blocks"] += st.get("instructions_retrieved", 0)
         acc.counters["edges_checked"] += st["edges"]
         acc.maximum("blocks_per_function", st["blocks"])
     except Viol as v:
